@@ -406,6 +406,23 @@ inductive Strategy where
       `label` — the label also keys every ciphertext (`m·L mod n`), and the ciphertexts are hashed;
       `Q` — a slot opened on the `x + r` side forces `Q = s·G − g_r` with `g_r` and `Enc(s)` hashed. -/
   | adaptiveGR
+  /- The next four violate exactly ONE conjunct of the per-slot acceptance condition (`SlotOK`: for bit `b`, commitment
+      relation of side `b` ∧ re-encryption of the opened scalar = ciphertext of side `b`) in the listed slots; everything
+      else is honest, the challenge is computed on the final slots (no grinding), and the real `verify` rejects. -/
+  /-- the two ciphertexts of the listed slots exchanged (`Enc(r)` in the `enc_x_r` position, `Enc(x+r)` in the `enc_r`
+      position), commitment and opening honest: ONLY the ciphertext conjunct fails.  With all slots swapped every slot
+      decrypts to `-x`. -/
+  | swapEnc (which : List Nat)
+  /-- slot `i` carries both ciphertexts of slot `j`, commitment and opening of slot `i` honest: ONLY the ciphertext conjunct
+      fails (the opened scalar re-encrypts to a ciphertext of ANOTHER slot) -/
+  | cross (i j : Nat)
+  /-- ciphertexts exchanged AND the other side opened in the listed slots: the opened scalar re-encrypts to the ciphertext
+      of the side the bit selects, but it satisfies the commitment relation of the side NOT selected: ONLY the commitment
+      conjunct fails -/
+  | commitOtherSide (which : List Nat)
+  /-- the opened scalar of the listed slots replaced by `s + order` (the same group element): its 32-byte encoding, when it
+      exists, is not canonical and `from_bytes` refuses it; otherwise the truncated bytes are another scalar -/
+  | openPlusOrder (which : List Nat)
 deriving DecidableEq, Repr
 
 /-- a nonce whose repr starts with a zero byte (and is canonical): 32 tape bytes, first forced to 0, and for the
@@ -494,6 +511,13 @@ def advOpens (ch : Bytes) (wrongSide : List Nat) : Nat → List Made → List Na
       let b := if wrongSide.contains i then !b else b
       (if b then md.xr else md.r) :: advOpens ch wrongSide (i+1) rest
 
+/-- exchange `enc_x_r` and `enc_r` in the listed slots -/
+def swapCiphertexts (which : List Nat) : Nat → List Made → List Made
+  | _, [] => []
+  | i, md :: rest =>
+      (if which.contains i then { md with slot := { md.slot with encXR := md.slot.encR, encR := md.slot.encXR } } else md)
+        :: swapCiphertexts which (i+1) rest
+
 /-- the slots of `Strategy.adaptiveGR` before the commitments are chosen: `(a, b, Enc(b), Enc(a))` -/
 def adaptivePairs (O : Query → m Bytes) (cp : CurveParams) (key : Bytes) (n L : Nat) (seed : Bytes) :
     Nat → Tape → m (List (Nat × Nat × Bytes × Bytes) × Tape)
@@ -557,6 +581,24 @@ def advProver (O : Query → m Bytes) (cp : CurveParams) (x : Nat) (key : Bytes)
   | .wrongSide which => do
       let ch ← challenge O q label (made.map Made.slot)
       pure ({ seed, slots := made.map Made.slot, opens := advOpens ch which 0 made, param := nslots }, 0)
+  | .swapEnc which => do
+      let made := swapCiphertexts which 0 made
+      let ch ← challenge O q label (made.map Made.slot)
+      pure ({ seed, slots := made.map Made.slot, opens := advOpens ch [] 0 made, param := nslots }, 0)
+  | .commitOtherSide which => do
+      let made := swapCiphertexts which 0 made
+      let ch ← challenge O q label (made.map Made.slot)
+      pure ({ seed, slots := made.map Made.slot, opens := advOpens ch which 0 made, param := nslots }, 0)
+  | .cross i j => do
+      let made := match made[i]?, made[j]? with
+        | some mi, some mj => made.set i { mi with slot := { mi.slot with encXR := mj.slot.encXR, encR := mj.slot.encR } }
+        | _, _ => made
+      let ch ← challenge O q label (made.map Made.slot)
+      pure ({ seed, slots := made.map Made.slot, opens := advOpens ch [] 0 made, param := nslots }, 0)
+  | .openPlusOrder which => do
+      let ch ← challenge O q label (made.map Made.slot)
+      let opens := (advOpens ch [] 0 made).zipIdx.map fun (s, k) => if which.contains k then s + cp.order else s
+      pure ({ seed, slots := made.map Made.slot, opens, param := nslots }, 0)
   | _ => do
       let ch ← challenge O q label (made.map Made.slot)
       pure ({ seed, slots := made.map Made.slot, opens := advOpens ch [] 0 made, param := nslots }, 0)
